@@ -3,4 +3,6 @@ CONSTANTS
   NoticeAfterNext = TRUE
   FlagClearedAtRunStart = TRUE
   Together = FALSE
+  RunIsEval = FALSE
+  EvalStopsAtError = TRUE
 INVARIANTS InvMonitor
